@@ -36,7 +36,9 @@ def _base(elemType: str, cells: int, layers: int):
 
 @st.composite
 def mesh_recipes(draw, types=None, dims=(2, 3), warp_ok=True):
-    types = types or [t for t in gm.T2D + gm.T3D if gm.dim_of(t) in dims]
+    if types is None:
+        dim = draw(st.sampled_from(list(dims)))
+        types = gm.T2D if dim == 2 else gm.T3D
     et = draw(st.sampled_from(types))
     dim = gm.dim_of(et)
     heavy = et in ("HEXA20", "HEXA27", "TETRA10", "PRISM15", "PRISM18", "TRI15")
@@ -109,8 +111,17 @@ def rotations(draw, dim):
     return dict(q=[draw(st.integers(-4, 4)) for _ in range(4)])
 
 
-def rotation(rec, dim) -> np.ndarray:
-    return rot2(int(rec["k"])) if dim == 2 else rot_from_quat(rec["q"])
+def rotation(rec, dim=None) -> np.ndarray:
+    return rot2(int(rec["k"])) if "k" in rec else rot_from_quat(rec["q"])
+
+
+def frame_kind(p: dict, dim: int) -> str:
+    """'tilted' when a 2D law carries a fibre frame with out-of-plane components"""
+    if dim == 2 and "frame" in p and "q" in p["frame"]:
+        R = rotation(p["frame"])
+        if abs(R[2, 0]) > 1e-9 or abs(R[2, 1]) > 1e-9:
+            return "tilted"
+    return "inplane" if dim == 2 else "3d"
 
 
 @st.composite
@@ -171,7 +182,7 @@ def _g(draw, lo, hi, q=4):
 
 
 @st.composite
-def law_records(draw, dim, names=None, fields_ok=True):
+def law_records(draw, dim, names=None, fields_ok=True, tilted_ok=False):
     name = draw(st.sampled_from(names or LAWS))
     p = dict(name=name)
     if name == "NeoHookean":
@@ -187,7 +198,10 @@ def law_records(draw, dim, names=None, fields_ok=True):
             p[k] = _g(draw, 0.25, 1)
         p.update(K=_g(draw, 0.25, 4), Mu1=_g(draw, 0, 2), Mu2=_g(draw, 0, 2),
                  ks=draw(st.sampled_from([1.0, 10.0, 100.0])))
-        p["frame"] = draw(rotations(dim))  # orthonormal fibre frame (in-plane in 2D)
+        # orthonormal fibre frame; in 2D mostly in-plane, sometimes a general 3D frame ("tilted":
+        # fibres with an out-of-plane component under plane strain)
+        tilted = tilted_ok and dim == 2 and draw(st.integers(0, 3)) == 0
+        p["frame"] = draw(rotations(3 if tilted else dim))
         p["field"] = draw(st.integers(0, 9)) if fields_ok and draw(st.booleans()) else None
     elif name == "yeoh":
         p.update(c1=_g(draw, 0.25, 2), c2=_g(draw, 0, 1), c3=_g(draw, 0, 1), K=_g(draw, 0.25, 3))
